@@ -808,3 +808,29 @@ Fixpoint explain_reg_from (ents : list (string * string)) (rs : list reg_round) 
       map (fun n => (n, reg_event ents (rr_snap r) n)) names :: explain_reg_from ents' t
   end.
 Definition explain_reg (c : reg_case) := explain_reg_from [] (rg_rounds c).
+
+(** * grp "storm": k updates of one HTTPServer behind a busy event loop.  Model: the reload events
+    are applied in the order of the Inherit calls ([mx_run] over [LStore]s): the live generation
+    never goes backwards and ends as the last update. *)
+Record storm_case := { sm_k : Z; sm_seq : list Z; sm_final : Z; sm_bad : bool }.
+
+Fixpoint nondecreasing (l : list Z) : bool :=
+  match l with
+  | a :: ((b :: _) as t) => (a <=? b) && nondecreasing t
+  | _ => true
+  end.
+
+Definition storm_prop (c : storm_case) : bool :=
+  (sm_final c =? sm_k c) && nondecreasing (sm_seq c) && forallb (fun g => (0 <=? g) && (g <=? sm_k c)) (sm_seq c).
+
+Definition storm_gen (n : Z) : mx_gen := {| gn_mapper := "m"; gn_xff := false; gn_limit := n; gn_comp := [] |}.
+
+Definition check_storm (pinned : rquirks) (c : storm_case) : result :=
+  if sm_bad c then (true, true, 0%N, 0%N) else
+  let w := mx_run (mx_init (storm_gen 0)) (map (fun n => LStore (storm_gen (Z.of_nat n))) (seq 1 (Z.to_nat (sm_k c)))) in
+  let over := 10 <? sm_k c in
+  ((gn_limit (mw_inst w) =? sm_final c) && nondecreasing (sm_seq c), storm_prop c,
+   (1 + bN over 1)%N, 0%N).
+
+Definition explain_storm (c : storm_case) :=
+  gn_limit (mw_inst (mx_run (mx_init (storm_gen 0)) (map (fun n => LStore (storm_gen (Z.of_nat n))) (seq 1 (Z.to_nat (sm_k c)))))).
